@@ -8,14 +8,59 @@ import (
 	"errors"
 	"fmt"
 	"io"
+	"strings"
 )
 
 // RunawayPanic is what a simulated reader panics with when its caller went on
 // calling it long after it started refusing.
 const RunawayPanic = "simio: runaway reader stopped"
 
-// ErrInjected is the error simulated devices fail with.
+// ErrInjected is the error simulated devices fail with by default.
 var ErrInjected = errors.New("simio: injected device error")
+
+// netErr is an injected error that says of itself that it is temporary and/or
+// a timeout, as errors of network connections and deadlines do; code that
+// retries on such errors takes that path.
+type netErr struct {
+	msg                string
+	temporary, timeout bool
+}
+
+func (e *netErr) Error() string   { return e.msg }
+func (e *netErr) Temporary() bool { return e.temporary }
+func (e *netErr) Timeout() bool   { return e.timeout }
+
+var (
+	errTemporary = &netErr{msg: "simio: injected temporary device error", temporary: true}
+	errTimeout   = &netErr{msg: "simio: injected i/o timeout", temporary: true, timeout: true}
+)
+
+// ErrKinds are the kinds of error a simulated device can be told to fail with.
+var ErrKinds = []string{"", "temporary", "timeout", "unexpected-eof", "closed-pipe", "no-progress"}
+
+// ErrOf returns the error of the given kind ("" = ErrInjected).
+func ErrOf(kind string) error {
+	switch kind {
+	case "temporary":
+		return errTemporary
+	case "timeout":
+		return errTimeout
+	case "unexpected-eof":
+		return io.ErrUnexpectedEOF
+	case "closed-pipe":
+		return io.ErrClosedPipe
+	case "no-progress":
+		return io.ErrNoProgress
+	}
+	return ErrInjected
+}
+
+// Reports says whether err reports the injected error of the given kind: the
+// error itself, a wrapping of it, or a text that quotes it.
+func Reports(err error, kind string) bool {
+	want := ErrOf(kind)
+	return err != nil && (errors.Is(err, want) || strings.Contains(err.Error(), want.Error()))
+}
 
 // Directive kinds of a read plan; one directive is consumed per Read call.
 const (
@@ -40,6 +85,8 @@ type ReadPlan struct {
 	// before ErrAt, otherwise by the next call.
 	ErrAt       int  `json:"err_at"`
 	ErrWithData bool `json:"err_with_data,omitempty"`
+	// ErrKind selects what the reader fails with (see ErrKinds).
+	ErrKind string `json:"err_kind,omitempty"`
 	// TruncAt >= 0: the source ends at TruncAt (clean EOF).
 	TruncAt int `json:"trunc_at"`
 	// MaxStalls bounds consecutive stalls so a conforming caller progresses
@@ -114,7 +161,7 @@ func (r *Reader) Read(p []byte) (int, error) {
 		return r.record(len(p), 0, fmt.Errorf("simio: reader called more than %d times", maxCalls))
 	}
 	if r.failed {
-		return r.record(len(p), 0, ErrInjected)
+		return r.record(len(p), 0, ErrOf(r.plan.ErrKind))
 	}
 	end := r.end()
 	limit := end
@@ -124,7 +171,7 @@ func (r *Reader) Read(p []byte) (int, error) {
 	if r.plan.ErrAt >= 0 && r.pos >= r.plan.ErrAt && r.plan.ErrAt <= end {
 		r.failed = true
 		r.Errs++
-		return r.record(len(p), 0, ErrInjected)
+		return r.record(len(p), 0, ErrOf(r.plan.ErrKind))
 	}
 	if r.pos >= end {
 		if r.plan.TruncAt >= 0 && r.plan.TruncAt < len(r.src) {
@@ -164,7 +211,7 @@ func (r *Reader) Read(p []byte) (int, error) {
 	if r.plan.ErrAt >= 0 && r.pos == r.plan.ErrAt && r.plan.ErrWithData && r.plan.ErrAt <= end {
 		r.failed = true
 		r.Errs++
-		return r.record(len(p), n, ErrInjected)
+		return r.record(len(p), n, ErrOf(r.plan.ErrKind))
 	}
 	if d.K == DataEOF && r.pos >= end {
 		r.DataEOFs++
@@ -241,6 +288,8 @@ type WritePlan struct {
 	// later calls succeed again. An encoder that drops one error is then
 	// visible as a nil result.
 	Transient bool `json:"transient,omitempty"`
+	// ErrKind selects what the writer fails with (see ErrKinds).
+	ErrKind string `json:"err_kind,omitempty"`
 }
 
 // Writer is the simulated io.Writer.
@@ -271,12 +320,12 @@ func (w *Writer) Write(p []byte) (int, error) {
 	}
 	if w.failed {
 		w.AfterFail++
-		return rec(0, ErrInjected)
+		return rec(0, ErrOf(w.plan.ErrKind))
 	}
 	if w.plan.FailAt >= 0 && w.plan.Transient && w.Fails == 0 && len(w.Buf)+len(p) > w.plan.FailAt {
 		w.Fails++
 		w.Lost += len(p)
-		return rec(0, ErrInjected)
+		return rec(0, ErrOf(w.plan.ErrKind))
 	}
 	if w.plan.FailAt >= 0 && !w.plan.Transient && len(w.Buf)+len(p) > w.plan.FailAt {
 		n := 0
@@ -286,7 +335,7 @@ func (w *Writer) Write(p []byte) (int, error) {
 		w.Buf = append(w.Buf, p[:n]...)
 		w.failed = true
 		w.Fails++
-		return rec(n, ErrInjected)
+		return rec(n, ErrOf(w.plan.ErrKind))
 	}
 	w.Buf = append(w.Buf, p...)
 	return rec(len(p), nil)
